@@ -481,6 +481,68 @@ func main() {
 			t.Outcome("ok")
 		})
 
+		// Consumers other than a plain Read loop: io.Copy (which uses the reader's WriteTo or the
+		// destination's ReadFrom when they exist), io.ReadAll, io.ReadFull, after 0..9 bytes were
+		// already taken through Read; and io.Copy / io.WriteString into the masking writer.
+		r.Part("E3d-other-consumers", func(t *explore.T) {
+			key := keys[4]
+			for before := 0; before <= 9; before++ {
+				for _, total := range []int{before, before + 1, before + 11, before + 70000} {
+					before, total := before, total
+					t.Do(func() string { return fmt.Sprintf("CipherReader: %d bytes via Read, the other %d via io.Copy / ReadAll / ReadFull", before, total-before) }, func() *explore.Fail {
+						data := fill(total, 9)
+						want := refmodel.XOR(data, key, 0)
+						for _, how := range []string{"io.Copy", "io.Copy-to-bytes.Buffer", "io.ReadAll", "io.ReadFull"} {
+							cr := wsutil.NewCipherReader(env.NewSrc(append([]byte{}, data...)), key)
+							got := make([]byte, before)
+							if _, err := io.ReadFull(cr, got); err != nil {
+								return explore.Failf("harness-prefix", "%v", err)
+							}
+							switch how {
+							case "io.Copy":
+								d := env.NewDst()
+								io.Copy(d, cr)
+								got = append(got, d.Bytes()...)
+							case "io.Copy-to-bytes.Buffer":
+								var b bytes.Buffer
+								io.Copy(&b, cr)
+								got = append(got, b.Bytes()...)
+							case "io.ReadAll":
+								b, _ := io.ReadAll(cr)
+								got = append(got, b...)
+							case "io.ReadFull":
+								b := make([]byte, total-before)
+								io.ReadFull(cr, b)
+								got = append(got, b...)
+							}
+							if !bytes.Equal(got, want) {
+								return explore.Failf("reader-xor-mismatch:"+how, "after %d bytes via Read: first difference at byte %d of %d", before, firstDiff(got, want), total)
+							}
+						}
+						for _, how := range []string{"io.Copy-from-bytes.Reader", "io.Copy-from-plain-reader", "io.WriteString"} {
+							d := env.NewDst()
+							cw := wsutil.NewCipherWriter(d, key)
+							cw.Write(data[:before])
+							rest := append([]byte{}, data[before:]...)
+							switch how {
+							case "io.Copy-from-bytes.Reader":
+								io.Copy(cw, bytes.NewReader(rest))
+							case "io.Copy-from-plain-reader":
+								io.Copy(cw, env.NewSrc(rest))
+							case "io.WriteString":
+								io.WriteString(cw, string(rest))
+							}
+							if got := d.Bytes(); !bytes.Equal(got, want) {
+								return explore.Failf("writer-xor-mismatch:"+how, "after %d bytes via Write: first difference at byte %d of %d", before, firstDiff(got, want), total)
+							}
+						}
+						return nil
+					})
+				}
+			}
+			t.Outcome("ok")
+		})
+
 		r.Part("E4-frame-helpers", func(t *explore.T) {
 			key := keys[1]
 			sizes := []int{}
